@@ -1,6 +1,8 @@
 import SwcVerif.Proofs.Dsu
 import SwcVerif.Proofs.DsuForest
 import SwcVerif.Proofs.DsuConn
+import SwcVerif.Proofs.DsuLink
+import SwcVerif.Proofs.DsuTerm
 /-! # C18 — topology diagnosis and root repair tell the truth about any parent table
 
 Theorems about the models in `Model/Dsu.lean` (tied to the code by the `c18.dsu`, `c18.checkers`
@@ -587,8 +589,7 @@ theorem dsuInit_tab (pids : List Int)
 /-- **any table, cycles included — partial correctness of `get_dsu` / `is_single_root`**: whenever the pointer-jumping
 loop returns, two rows carry the same label exactly when they are weakly connected in the table (by parent links in
 either direction); in particular all labels are equal exactly when the whole table is connected.  (That the loop
-returns within the modelled pass budget is `getDsu_forest` for every forest; for tables with cycles it is observed —
-exhaustively for n ≤ 5 and on random functional graphs — not proved.) -/
+returns within the modelled pass budget is `getDsu_forest` for every forest and `getDsu_total` below for every table.) -/
 theorem getDsu_labels_are_components (pids : List Int)
     (hv : ∀ k (h : k < pids.length), pids[k] = -1 ∨ (0 ≤ pids[k] ∧ pids[k] < pids.length))
     (l : List Nat) (h : getDsu ((List.range pids.length).map Int.ofNat) pids = some l) :
@@ -607,6 +608,84 @@ theorem getDsu_labels_are_components (pids : List Int)
   rw [hinit] at h
   simp only [List.length_map, List.length_range, Option.bind_some] at h
   exact jumpLoop_conn pids.length (ptr pids) _ l0 l (ptr pids) htab0 hcl (fun _ _ => Iff.rfl) h
+
+/-- **`get_dsu` returns on EVERY table whose parents name rows — cycles included — and its labels are the weakly
+connected components**: total correctness.  (Variant: the sum of the orbit sizes of the pointer array, at most
+`n²`, drops in every pass that changes anything — `Proofs/DsuTerm.lean`.) -/
+theorem getDsu_total (pids : List Int)
+    (hv : ∀ k (h : k < pids.length), pids[k] = -1 ∨ (0 ≤ pids[k] ∧ pids[k] < pids.length)) :
+    ∃ l, getDsu ((List.range pids.length).map Int.ofNat) pids = some l ∧ l.length = pids.length ∧
+      ∀ a b, a < pids.length → b < pids.length → (l.getD a 0 = l.getD b 0 ↔ WConn pids.length (ptr pids) a b) := by
+  obtain ⟨l0, hinit, htab0⟩ := dsuInit_tab pids hv
+  have hcl : Closed pids.length (ptr pids) := by
+    intro i hi
+    unfold ptr
+    have hget : pids.getD i (-1) = pids[i] := by simp [List.getD_eq_getElem?_getD, hi]
+    rw [hget]
+    rcases hv i hi with e | ⟨h0, h1⟩
+    · rw [if_pos e]; exact hi
+    · rw [if_neg (by omega)]; omega
+  have hb := Phi_bound pids.length (ptr pids)
+  obtain ⟨l, hl⟩ := jumpLoop_terminates (pids.length * pids.length + 2) l0 (ptr pids) htab0 hcl (by omega)
+  have hget : getDsu ((List.range pids.length).map Int.ofNat) pids = some l := by
+    unfold getDsu
+    rw [hinit]
+    simpa using hl
+  obtain ⟨h1, h2⟩ := getDsu_labels_are_components pids hv l hget
+  exact ⟨l, hget, h1, h2⟩
+
+theorem eraseDups_length_one (l : List Nat) :
+    (l.eraseDups.length == 1) = true ↔ l ≠ [] ∧ ∀ x ∈ l, ∀ y ∈ l, x = y := by
+  cases l with
+  | nil => simp
+  | cons a t =>
+    rw [List.eraseDups_cons]
+    simp only [List.length_cons, beq_iff_eq, Nat.add_eq_right, List.length_eq_zero_iff, ne_eq, reduceCtorEq,
+      not_false_eq_true, true_and]
+    constructor
+    · intro h
+      have hf : t.filter (fun b => !b == a) = [] := by
+        cases hft : t.filter (fun b => !b == a) with
+        | nil => rfl
+        | cons c u => rw [hft, List.eraseDups_cons] at h; simp at h
+      have hall : ∀ b ∈ t, b = a := by
+        intro b hb
+        have := List.filter_eq_nil_iff.1 hf b hb
+        simpa using this
+      intro x hx y hy
+      have ex : x = a := by rcases List.mem_cons.1 hx with e | e; exact e; exact hall x e
+      have ey : y = a := by rcases List.mem_cons.1 hy with e | e; exact e; exact hall y e
+      rw [ex, ey]
+    · intro h
+      have hf : t.filter (fun b => !b == a) = [] := by
+        apply List.filter_eq_nil_iff.2
+        intro b hb
+        have := h b (List.mem_cons_of_mem _ hb) a List.mem_cons_self
+        simp [this]
+      rw [hf]; rfl
+
+/-- **`is_single_root` answers on every table, and answers "one weakly connected component"** -/
+theorem isSingleRoot_total (pids : List Int) (hpos : 0 < pids.length)
+    (hv : ∀ k (h : k < pids.length), pids[k] = -1 ∨ (0 ≤ pids[k] ∧ pids[k] < pids.length)) :
+    ∃ b, isSingleRoot ((List.range pids.length).map Int.ofNat) pids = some b ∧
+      (b = true ↔ ∀ x y, x < pids.length → y < pids.length → WConn pids.length (ptr pids) x y) := by
+  obtain ⟨l, hget, hlen, hlab⟩ := getDsu_total pids hv
+  refine ⟨l.eraseDups.length == 1, by simp [isSingleRoot, hget], ?_⟩
+  rw [eraseDups_length_one]
+  have hgd : ∀ x (hx : x < l.length), l.getD x 0 = l[x] := by
+    intro x hx; simp [List.getD_eq_getElem?_getD, hx]
+  constructor
+  · rintro ⟨_, hall⟩ x y hx hy
+    apply (hlab x y hx hy).1
+    rw [hgd x (hlen ▸ hx), hgd y (hlen ▸ hy)]
+    exact hall _ (List.getElem_mem _) _ (List.getElem_mem _)
+  · intro h
+    refine ⟨fun e => by rw [e] at hlen; simp at hlen; omega, ?_⟩
+    intro x hx y hy
+    obtain ⟨i, hi, rfl⟩ := List.getElem_of_mem hx
+    obtain ⟨j, hj, rfl⟩ := List.getElem_of_mem hy
+    rw [← hgd i hi, ← hgd j hj]
+    exact (hlab i j (hlen ▸ hi) (hlen ▸ hj)).2 (h i j (hlen ▸ hi) (hlen ▸ hj))
 
 -- non-vacuity: a table with a cycle (0 → 1 → 2 → 0, 3 hanging off it) and a separate root 4
 example : getDsu ((List.range 5).map Int.ofNat) [1, 2, 0, 1, -1] = some [2, 2, 2, 2, 4] := by decide +kernel
@@ -700,9 +779,9 @@ theorem repair_somas (ids pids types : List Int) (ut : Option Int)
       apply List.map_snd_zip
       simp [ht]
 
-/-- **`fix_roots="nearest"`**: rows that had a parent keep it, the first root stays the root, every other
-root is linked to (the id of) some row — partial: that the chosen row lies in another component, hence
-that the result is a tree, is checked by the oracle on generated files, not proved -/
+/-- **`fix_roots="nearest"`**, any ids: rows that had a parent keep it, the first root stays the root, every other
+root is linked to (the id of) some row — partial; that the chosen row lies in another component, hence that
+the result is a tree, is `repair_nearest_tree` below (row-numbered ids) -/
 theorem repair_nearest_partial (ids pids : List Int) (dist2 : Nat → Nat → Int) (res : List Int)
     (hl : ids.length = pids.length) (hr : firstRootLoc pids < pids.length)
     (h : linkRootsToNearest ids pids dist2 = some res) :
@@ -741,6 +820,123 @@ theorem repair_nearest_partial (ids pids : List Int) (dist2 : Nat → Nat → In
     apply l3 k h1
     apply (hdrop k).2
     exact ⟨(hmem k).2 ⟨h2, by simp [List.getD_eq_getElem?_getD, h2, he]⟩, hk⟩
+
+/-- **`fix_roots="nearest"` on any forest returns a single tree**: for every acyclic table (any numbering, `dp` a
+measure dropping along every parent pointer) with at least one root and for every distance function, the
+repair returns; exactly the first root stays a root; every row that had a parent keeps it; every parent names a
+row; and some measure `dp'` drops along every parent pointer of the result — the result has no cycle, so
+every row reaches the one root. -/
+theorem repair_nearest_tree (pids : List Int) (dp : Nat → Nat) (dist2 : Nat → Nat → Int)
+    (hv : ∀ k (h : k < pids.length), pids[k] = -1 ∨ (0 ≤ pids[k] ∧ pids[k] < pids.length))
+    (hd : ∀ k (h : k < pids.length), pids[k] ≠ -1 → dp (pids[k]).toNat < dp k)
+    (hb : ∀ k, k < pids.length → dp k < pids.length)
+    (hr : firstRootLoc pids < pids.length) :
+    ∃ (res : List Int) (dp' : Nat → Nat), linkRootsToNearest ((List.range pids.length).map Int.ofNat) pids dist2 = some res ∧
+      ∃ hl : res.length = pids.length,
+      (∀ k (h : k < res.length), res[k] = -1 ↔ k = firstRootLoc pids) ∧
+      (∀ k (h : k < res.length), pids[k]'(hl ▸ h) ≠ -1 → res[k] = pids[k]'(hl ▸ h)) ∧
+      (∀ k (h : k < res.length), res[k] ≠ -1 →
+        0 ≤ res[k] ∧ res[k] < pids.length ∧ dp' (res[k]).toNat < dp' k) := by
+  have hget : ∀ k (h : k < pids.length), pids.getD k (-1) = pids[k] := by
+    intro k hk; simp [List.getD_eq_getElem?_getD, hk]
+  have hget0 : ∀ k (h : k < pids.length), pids.getD k 0 = pids[k] := by
+    intro k hk; simp [List.getD_eq_getElem?_getD, hk]
+  have hF : Forest pids.length (ptr pids) dp := by
+    refine ⟨?_, ?_, hb⟩
+    · intro i hi
+      unfold ptr
+      rw [hget i hi]
+      rcases hv i hi with e | ⟨h0, h1⟩
+      · rw [if_pos e]; exact hi
+      · rw [if_neg (by omega)]; omega
+    · intro i hi
+      unfold ptr
+      rw [hget i hi]
+      by_cases e : pids[i] = -1
+      · left; rw [if_pos e]
+      · right; rw [if_neg e]; exact hd i hi e
+  have hdsu := getDsu_forest pids dp hv hd hb
+  have hlabel : ∀ x, x < pids.length →
+      ((List.range pids.length).map (Forest.rootFn (ptr pids) dp)).getD x 0 = Forest.rootFn (ptr pids) dp x := by
+    intro x hx; simp [List.getD_eq_getElem?_getD, hx]
+  -- the invariant holds before the loop
+  have h0 : LInv pids.length pids ((List.range pids.length).map (Forest.rootFn (ptr pids) dp)) dp := by
+    refine ⟨rfl, by simp, hv, hd, ?_, ?_⟩
+    · intro k hk hne
+      have hpn : (pids[k]).toNat < pids.length := by
+        rcases hv k hk with c | ⟨c0, c1⟩
+        · exact absurd c hne
+        · omega
+      rw [hlabel _ hpn, hlabel k hk]
+      have hp : ptr pids k = (pids[k]).toNat := by
+        unfold ptr; rw [hget k hk, if_neg hne]
+      rw [← hp]
+      have hroot := hF.rootFn_is_root (dp (ptr pids k)) (ptr pids k) (hF.closed k hk) (Nat.le_refl _)
+      exact hF.root_unique k hk (dp (ptr pids k) + 1) hroot
+    · intro a b ha hb' ra rb e
+      rw [hlabel a ha, hlabel b hb'] at e
+      have pa : ptr pids a = a := by unfold ptr; rw [hget a ha, if_pos ra]
+      have pb : ptr pids b = b := by unfold ptr; rw [hget b hb', if_pos rb]
+      have ea : Forest.rootFn (ptr pids) dp a = a := hF.iter_root a pa _
+      have eb : Forest.rootFn (ptr pids) dp b = b := hF.iter_root b pb _
+      rw [ea, eb] at e; exact e
+  -- the roots to link
+  have hloc : pids[firstRootLoc pids]'hr = -1 := firstRootLoc_spec pids hr
+  have hmem : ∀ k, k ∈ (List.range pids.length).filter (fun k => pids.getD k 0 = -1) ↔
+      k < pids.length ∧ pids.getD k 0 = -1 := by
+    intro k; simp
+  have hsorted : ((List.range pids.length).filter (fun k => pids.getD k 0 = -1)).Pairwise (· < ·) :=
+    List.Pairwise.filter _ List.pairwise_lt_range
+  have hdrop := mem_drop_one_of_sorted hsorted (m := firstRootLoc pids)
+    ((hmem _).2 ⟨hr, by rw [hget0 _ hr, hloc]⟩)
+    (fun x hx => firstRootLoc_min pids x ((hmem x).1 hx).2)
+  have hnd : (((List.range pids.length).filter (fun k => pids.getD k 0 = -1)).drop 1).Nodup :=
+    ((hsorted.imp (fun h => Nat.ne_of_lt h)).sublist (List.drop_sublist _ _))
+  obtain ⟨dsu', dp', hfin⟩ := linkLoop_inv pids.length dist2 _ pids _ dp h0 hnd
+    (fun i hi => by
+      have := (hmem i).1 ((hdrop i).1 hi).1
+      exact ⟨this.1, by rw [← hget0 i this.1]; exact this.2⟩)
+    ⟨firstRootLoc pids, hr, hloc, fun e => ((hdrop _).1 e).2 rfl⟩
+  have hres : linkRootsToNearest ((List.range pids.length).map Int.ofNat) pids dist2 =
+      some (linkLoop ((List.range pids.length).map Int.ofNat) dist2
+        (((List.range pids.length).filter (fun k => pids.getD k 0 = -1)).drop 1) pids
+        ((List.range pids.length).map (Forest.rootFn (ptr pids) dp))) := by
+    unfold linkRootsToNearest
+    rw [hdsu]; rfl
+  obtain ⟨p1, p2, p3, p4⟩ := repair_nearest_partial _ pids dist2 _ (by simp) hr hres
+  refine ⟨_, dp', hres, p1, ?_, ?_, ?_⟩
+  · intro k h
+    have h' : k < pids.length := p1 ▸ h
+    constructor
+    · intro e
+      apply Decidable.byContradiction
+      intro hk
+      by_cases c : pids[k] = -1
+      · have := p4 k h h' c hk
+        rw [e, List.mem_map] at this
+        obtain ⟨m, _, hm⟩ := this
+        have : (0 : Int) ≤ Int.ofNat m := Int.natCast_nonneg m
+        omega
+      · exact c ((p2 k h h' c) ▸ e)
+    · intro e
+      subst e
+      have := p3
+      rw [List.getD_eq_getElem?_getD, List.getElem?_eq_getElem h, Option.getD_some] at this
+      exact this
+  · intro k h hne
+    exact p2 k h (p1 ▸ h) hne
+  · intro k h hne
+    have hk : k < (linkLoop ((List.range pids.length).map Int.ofNat) dist2
+        (((List.range pids.length).filter (fun k => pids.getD k 0 = -1)).drop 1) pids
+        ((List.range pids.length).map (Forest.rootFn (ptr pids) dp))).length := h
+    rcases hfin.valid k hk with c | ⟨c0, c1⟩
+    · exact absurd c hne
+    · exact ⟨c0, c1, hfin.drop k hk hne⟩
+
+-- non-vacuity: three fragments (roots at rows 0, 2, 4) on a line; row 2 is linked below row 4 (the nearest outside its own fragment), then row 4 below row 1: one tree
+example : linkRootsToNearest ((List.range 5).map Int.ofNat) [-1, 0, -1, 2, -1]
+    (fun i j => let xs : List Int := [0, 1, 5, 6, 8]; (xs.getD i 0 - xs.getD j 0) * (xs.getD i 0 - xs.getD j 0))
+    = some [-1, 0, 4, 2, 1] := by decide +kernel
 
 -- non-vacuity / concrete behaviour (kernel-evaluated)
 example : runOps (init 4) [.union 0 1, .same 0 1, .same 1 2, .union 2 3, .union 1 3, .same 0 2] = [some true, some false, some true] := by
